@@ -12,14 +12,19 @@ import (
 	"pgregory.net/rapid"
 )
 
-func gen(rt *rapid.T) xdsrig.Plan {
-	c := xdsrig.GenCfg{
+func cfg(authPct int) xdsrig.GenCfg {
+	return xdsrig.GenCfg{
 		MaxServers: 3, MinOps: 4, MaxOps: vk.Pick(24, 100),
 		WWatch: 16, WUnwatch: 7, WResp: 26, WBreak: 12, WGrant: 22, WRelease: 4, WAdvance: 4, WRestart: 2, WFailover: 8, WRevert: 7,
 		UnknownPct: 0, HoldPct: 5, BadPct: 20, RefusePct: 40, IgnoreDel: false,
-		MaxAuths: 3, AuthPct: 75,
+		MaxAuths: 3, AuthPct: authPct,
 	}
-	p := xdsrig.Gen(rt, c)
+}
+
+// gen: unit "fallback" - mostly the top-level authority alone (the original
+// domain), 35 % of the multi-server cases with 1..3 named authorities.
+func gen(rt *rapid.T) xdsrig.Plan {
+	p := xdsrig.Gen(rt, cfg(35))
 	na := 1 + len(p.Auths)
 	if rapid.IntRange(0, 9).Draw(rt, "prefix") < 8 {
 		pre := []xdsrig.Op{{K: "watch", T: rapid.IntRange(0, 1).Draw(rt, "pt"), N: xdsrig.GenName(rt), A: rapid.IntRange(0, na-1).Draw(rt, "pa")}}
@@ -36,10 +41,142 @@ func gen(rt *rapid.T) xdsrig.Plan {
 	return p
 }
 
+func rank(x int, set ...int) int {
+	r := 0
+	for _, y := range set {
+		if y < x {
+			r++
+		}
+	}
+	return r
+}
+
+// genShared: unit "shared" - always 2..3 servers and 1..3 named authorities
+// whose server lists overlap with each other and with the top-level list.
+// 70 % of the cases open with a skeleton that makes two authorities meet on one
+// server at different priority positions: authority X = [p, f, ...] and
+// authority Y = [f, ...] both get a watch, p refuses its stream before any
+// response (X falls back onto the channel Y already holds), and - after a few
+// free ops - p comes up and answers (X reverts while Y keeps using f). All
+// operands stay relative; the ops around and after the skeleton are free.
+func genShared(rt *rapid.T) xdsrig.Plan {
+	c := cfg(100)
+	p := xdsrig.Gen(rt, c)
+	if p.Servers < 2 {
+		p.Servers = rapid.IntRange(2, 3).Draw(rt, "servers3")
+		p.IgnoreDel = make([]bool, p.Servers)
+	}
+	if len(p.Auths) == 0 {
+		p.Auths = xdsrig.GenAuths(rt, p.Servers, c.MaxAuths)
+		// the ops were drawn for the top-level authority only: redraw
+		n := len(p.Ops)
+		p.Ops = nil
+		for len(p.Ops) < n {
+			p.Ops = append(p.Ops, xdsrig.GenOpsAuth(rt, c, 1+len(p.Auths))...)
+		}
+	}
+	p.Auths = xdsrig.NormAuths(p.Servers, p.Auths)
+	na := 1 + len(p.Auths)
+	list := func(a int) []int {
+		if a == 0 || len(p.Auths[a-1]) == 0 {
+			l := make([]int, p.Servers)
+			for i := range l {
+				l[i] = i
+			}
+			return l
+		}
+		return p.Auths[a-1]
+	}
+	if rapid.IntRange(0, 9).Draw(rt, "skeleton") >= 7 {
+		// free start: one or two watches
+		pre := []xdsrig.Op{{K: "watch", T: rapid.IntRange(0, 1).Draw(rt, "pt"), N: xdsrig.GenName(rt), A: rapid.IntRange(0, na-1).Draw(rt, "pa")}}
+		if rapid.Bool().Draw(rt, "second_authority") {
+			pre = append(pre, xdsrig.Op{K: "watch", T: rapid.IntRange(0, 1).Draw(rt, "pt2"), N: xdsrig.GenName(rt), A: rapid.IntRange(0, na-1).Draw(rt, "pa2")})
+		}
+		p.Ops = append(pre, p.Ops...)
+		return p
+	}
+	// X: an authority with >= 2 servers (the top-level one always qualifies)
+	var xs []int
+	for a := 0; a < na; a++ {
+		if len(list(a)) >= 2 {
+			xs = append(xs, a)
+		}
+	}
+	x := xs[rapid.IntRange(0, len(xs)-1).Draw(rt, "x")]
+	pr, fb := list(x)[0], list(x)[1]
+	// Y: another authority whose primary is X's first fallback server; if the
+	// drawn configuration has none, a named authority (!= X) is given such a list
+	var ys []int
+	for a := 0; a < na; a++ {
+		if a != x && list(a)[0] == fb {
+			ys = append(ys, a)
+		}
+	}
+	y := 0
+	if len(ys) > 0 {
+		y = ys[rapid.IntRange(0, len(ys)-1).Draw(rt, "y")]
+	} else {
+		yl := []int{fb}
+		if rapid.Bool().Draw(rt, "ylonger") {
+			yl = append(yl, pr)
+		}
+		switch {
+		case x != 1 && len(p.Auths) >= 1:
+			y = 1
+			p.Auths[0] = yl
+		case len(p.Auths) >= 2:
+			y = 2
+			p.Auths[1] = yl
+		default:
+			p.Auths = append(p.Auths, yl)
+			y = len(p.Auths)
+			na = 1 + len(p.Auths)
+		}
+	}
+	tx, ty := rapid.IntRange(0, 1).Draw(rt, "tx"), rapid.IntRange(0, 1).Draw(rt, "ty")
+	nx, ny := xdsrig.GenName(rt), xdsrig.GenName(rt)
+	wx := xdsrig.Op{K: "watch", T: tx, N: nx, A: x}
+	wy := xdsrig.Op{K: "watch", T: ty, N: ny, A: y}
+	pre := []xdsrig.Op{wy, wx}
+	if rapid.Bool().Draw(rt, "xfirst") {
+		pre = []xdsrig.Op{wx, wy}
+	}
+	if rapid.Bool().Draw(rt, "x2") {
+		pre = append(pre, xdsrig.Op{K: "watch", T: rapid.IntRange(0, 1).Draw(rt, "tx2"), N: xdsrig.GenName(rt), A: x})
+	}
+	// both channels are waiting for their stream: pr and fb
+	if rapid.Bool().Draw(rt, "fb_up_first") {
+		pre = append(pre, xdsrig.Op{K: "grant", S: rank(fb, pr), Accept: true}) // waiting: {pr, fb}
+		if rapid.Bool().Draw(rt, "fb_answers") {
+			pre = append(pre, xdsrig.Op{K: "resp", S: 0, T: ty, Ver: 1, Nonce: 1, Res: []xdsrig.ResSpec{{N: ny, A: y, V: 1}}})
+		}
+		pre = append(pre, xdsrig.Op{K: "grant", S: 0, Accept: false}) // waiting: {pr}
+	} else {
+		pre = append(pre, xdsrig.Op{K: "grant", S: rank(pr, fb), Accept: false}) // waiting: {pr, fb}
+	}
+	// X is now on fb together with Y; pr keeps retrying
+	for k := rapid.IntRange(0, 3).Draw(rt, "mid"); k > 0; k-- {
+		pre = append(pre, xdsrig.GenOpsAuth(rt, c, na)...)
+	}
+	if rapid.IntRange(0, 9).Draw(rt, "revert") < 7 {
+		// pr comes up and answers with a valid resource of X
+		pre = append(pre, xdsrig.Op{K: "release", All: true},
+			xdsrig.Op{K: "grant", S: rank(pr, fb), Accept: true}, // if fb is still waiting as well
+			xdsrig.Op{K: "resp", S: rank(pr, fb), T: tx, Ver: 2, Nonce: 2, Res: []xdsrig.ResSpec{{N: nx, A: x, V: rapid.IntRange(0, 2).Draw(rt, "xv")}}})
+	}
+	p.Ops = append(pre, p.Ops...)
+	return p
+}
+
 // sigs in the order in which they are reported when several occur in one case
 var sigs = []string{xdsrig.SigFallbackNonActive}
 
-func run(t *testing.T, p xdsrig.Plan) vk.Result {
+func run(t *testing.T, p xdsrig.Plan) vk.Result { return runWith(t, p, false) }
+
+func runShared(t *testing.T, p xdsrig.Plan) vk.Result { return runWith(t, p, true) }
+
+func runWith(t *testing.T, p xdsrig.Plan, shared bool) vk.Result {
 	rep := xdsrig.Execute(t, p, xdsrig.AspFallback)
 	res := vk.Result{Steps: rep.Steps}
 	for c := range rep.Classes {
@@ -54,6 +191,9 @@ func run(t *testing.T, p xdsrig.Plan) vk.Result {
 		return res
 	}
 	res.NonTrivial = rep.Stats.Fallbacks >= 1 && rep.Stats.Reverts >= 1
+	if shared {
+		res.NonTrivial = rep.Stats.SharedReverts >= 1
+	}
 	if rep.Violation != "" {
 		return vk.Bad("%s", rep.Violation).With(res.Classes...)
 	}
@@ -70,7 +210,15 @@ func run(t *testing.T, p xdsrig.Plan) vk.Result {
 func TestVerifC44Fallback(t *testing.T) {
 	vk.Check(t, vk.Unit[xdsrig.Plan]{
 		ID: "C44", Name: "fallback",
-		Rule: "1..3 management servers (70% >= 2); op sequences of watch/unwatch, stream refusals and breaks before/after a response on any server, stream establishment on any server, responses from any connected server (valid/invalid/missing resources), watch-expiry advances; after every event the set of channels created/released by the client and the subscriptions requested from each server are compared with a gRFC A71 reference model. non-trivial = a fallback happened and a later response from a higher-priority server made the client revert",
+		Rule: "1..3 management servers (70% >= 2), top-level authority and - in 35% of the multi-server cases - 1..3 named authorities whose server lists are ordered subsets of the same servers; op sequences of watch/unwatch (any authority), stream refusals and breaks before/after a response on any server, stream establishment on any server, responses from any connected server (valid/invalid/missing resources of any authority), watch-expiry advances; after every event the set of channels created/released by the client and the subscriptions requested from each server are compared with a gRFC A71 reference model (per authority: active server, held channels; per server: union of the names of the authorities using it). non-trivial = a fallback happened and a later response from a higher-priority server made the client revert",
 		Gen:  gen, Run: run,
+	})
+}
+
+func TestVerifC44Shared(t *testing.T) {
+	vk.Check(t, vk.Unit[xdsrig.Plan]{
+		ID: "C44", Name: "shared",
+		Rule: "2..3 management servers, the top-level authority plus 1..3 named authorities (xdstp names) whose server lists are ordered subsets / permutations of the pool, so one reference-counted channel is commonly the primary of one authority and a fallback of another; 70% of the cases open with: authority X=[p,f,..] and Y=[f,..] both watched, p refuses its stream (X falls back onto the channel Y holds), free ops, p comes up and answers; otherwise and afterwards free ops as in unit fallback. Same A71 model oracle: per server the requested names must be the union over the authorities currently using it, a channel is closed iff no authority holds it. non-trivial = some authority reverted to a higher-priority server while another authority still held a lower-priority server it left (its names must disappear there, the channel must stay open)",
+		Gen:  genShared, Run: runShared,
 	})
 }
